@@ -60,6 +60,8 @@ Spai1Row(A, i) ==
         rhs == [k \in Idx(nI) |-> R(At(A, I[k + 1], i))]
         sol == RefSolve(G, rhs, nI)
     IN  [ok |-> sol.ok, m |-> [k \in 1..nI |-> sol.x[k - 1]]]
+\* 32-bit rationals follow the Gram systems of rows with at most three entries (or n <= 3)
+Spai1Tractable(A) == A.n <= 3 \/ \A i \in Rows(A) : RowLen(A, i) <= 3
 Spai1M(A) ==
     LET rows == [i \in 1..A.n |-> Spai1Row(A, i - 1)]
     IN  [ok |-> \A i \in 1..A.n : rows[i].ok, val |-> FlattenSeq([i \in 1..A.n |-> rows[i].m])]
